@@ -3,5 +3,5 @@ From MT Require Import Alloc.SizeClassModel Alloc.FlmallocModel Alloc.StackModel
 Extraction Language OCaml.
 Separate Extraction size_to_index index_to_rsize size_class round_page
   fl_init flmalloc flfree h_init hstep
-  s_init stack_get stack_release release_target desc_get desc_release load hs_init sstep
+  s_init stack_get stack_release release_target desc_get desc_release load hs_init sstep attr_setstacksize create_stack
   LedgerModel.step init_state on_stack stack_owner desc_owner.
